@@ -14,13 +14,14 @@ for k, what in ELEMS.items():
         harness='harness/c06_cfg.c', defines=['VERIF_ELEM=%d' % k], unwind=50, cbmc_flags=['--malloc-may-fail', '--malloc-fail-null'],
         replace_calls={'bus_policy_append_default_rule': 'verif_stub_append_default', 'bus_policy_append_mandatory_rule': 'verif_stub_append_mandatory',
                        'bus_policy_append_user_rule': 'verif_stub_append_user', 'bus_policy_append_group_rule': 'verif_stub_append_group',
-                       'bus_policy_append_console_rule': 'verif_stub_append_console', 'dbus_set_error': 'verif_stub_dbus_set_error'},
+                       'bus_policy_append_console_rule': 'verif_stub_append_console', 'dbus_set_error': 'verif_stub_dbus_set_error', 'locate_attributes': 'verif_stub_locate_attributes'},
         timeout=600, expect_s=15, must_have=['post3', 'post5', 'post6', 'post8'],
         bounds={'element': 'concrete: <allow|deny %s/> (allow/deny symbolic)' % what,
                 'enclosing_policy': 'symbolic: ignored / default / mandatory / user(uid) / group(gid) / at_console(0|1); uid, gid arbitrary',
                 'note': 'every allocation may fail'},
-        functions=[dict(name='start_policy_child, append_rule_from_element, locate_attributes, parse_int_attribute, peek_element, push_element', file=CFG, status='bounded',
+        functions=[dict(name='start_policy_child, append_rule_from_element, parse_int_attribute, peek_element, push_element', file=CFG, status='bounded',
                         contract='exactly one rule, appended to the list of the enclosing policy context with its uid/gid/at_console; rule kind, allow/deny and every attribute field as dbus-daemon(1) describes the attribute (defaults included); user/group rules refused in per-user/per-group policies'),
+                   dict(name='locate_attributes', file=CFG, status='stub', note='contract: each (name, location) pair gets the attribute value or NULL; unknown or repeated attribute => FALSE + error; no allocation. The real function reads one va_arg past the terminating NULL (config-parser.c:658; observation, harmless in practice) and is therefore not executed'),
                    dict(name='bus_policy_rule_new, bus_policy_rule_unref', file='bus/policy.c', status='inlined', note='real code'),
                    dict(name='_dbus_strdup, dbus_message_type_from_string, _dbus_list_get_last/_append, _dbus_string_init_const', file='dbus/', status='inlined', note='real code'),
                    dict(name='bus_policy_append_default/_mandatory/_user/_group/_console_rule', file='bus/policy.c', status='stub', note='record (which list, id, rule), take a reference, may fail (OOM)'),
